@@ -31,6 +31,9 @@ func main() {
 					Hold: true, Mute: !run.Quick(), Early: true, ByzBasic: true, ByzSplit: true, SplitAlt: []string{"nil", "alt"}, Lifo: !run.Quick()})
 			}
 			var scs []*consnet.Scenario
+			// a validator-set change in block 1 (validator 3: power 1 -> 5) followed by every single rule
+			vcCfg := []consnet.Scenario{{Powers: []int64{1, 1, 1, 1}, Byz: 0, Heights: 3, ValChange: &consnet.ValChange{Height: 1, Index: 3, Power: 5}}}
+			scs = append(scs, consnet.Product(vcCfg, full, 1)...)
 			if run.Quick() {
 				// quick: every single rule of the full menu, every pair of round-0 rules
 				small := func(cfg consnet.Scenario) []consnet.Rule {
